@@ -22,5 +22,5 @@ SomeFirst == {<<>>, <<" ", "a">>, <<" ", "@">>, <<" ", "@", " ", "a">>, <<"a", "
 Hash == {"hash"}
 BothLeaders == {"hash", "none"}
 NoDev == {}
-CurrentDev == {"D_FirstLineSliced"}
+CurrentDev == {}
 =============================================================================
